@@ -21,7 +21,8 @@ import (
 
 // ---- adapters under test
 
-var c18Adapters = [4]string{"IOWriter", "IOWriteCloser", "IOWriter(NopCloser)", "IOWriter(PacketWriterFunc)"}
+var c18Adapters = [6]string{"IOWriter", "IOWriteCloser", "IOWriter(NopCloser)", "IOWriter(PacketWriterFunc)",
+	"IOWriter(packet writer that also has a raw Write method)", "IOWriteCloser(packet write-closer that also has a raw Write method)"}
 
 func c18Make(adapter int, w *ref.ScriptedPacketWriter) io.Writer {
 	switch adapter {
@@ -31,8 +32,13 @@ func c18Make(adapter int, w *ref.ScriptedPacketWriter) io.Writer {
 		return packet.IOWriteCloser(w)
 	case 2:
 		return packet.IOWriter(packet.NopCloser(ref.PacketOnly{W: w}))
-	default:
+	case 3:
 		return packet.IOWriter(packet.PacketWriterFunc(w.WritePacket))
+	case 4:
+		// a bypass of WritePacket shows as missing deliveries in every oracle below
+		return packet.IOWriter(ref.PacketAndRaw{W: w, RawWrites: new(int)})
+	default:
+		return packet.IOWriteCloser(ref.PacketAndRawCloser{PacketAndRaw: ref.PacketAndRaw{W: w, RawWrites: new(int)}})
 	}
 }
 
@@ -490,7 +496,7 @@ func init() {
 	scen := []engine.ScenarioRunner{
 		&engine.Enum[c18WriteCase]{
 			Name: "write-all-lengths",
-			Rule: "Write through each of IOWriter, IOWriteCloser, IOWriter(NopCloser), IOWriter(PacketWriterFunc) with a slice of every length 0..3*188+1 (thorough 0..6*188+1) of pairwise distinct packets x failing packet write at no index and at every index (0..k), and for multiples of 188 a second Write of the same slice through the same adapter with the failure at every index of the second write: multiple of 188 => one delivery per packet, in order, each byte-equal to its 188 bytes (copied at call time), n == len and nil error if none fails, else the writer's error and no delivery after the failing one (n then not asserted); other lengths => ErrInvalidPacketLength and zero deliveries; input slice never modified; non-trivial = length > 0",
+			Rule: "Write through each of IOWriter, IOWriteCloser, IOWriter(NopCloser), IOWriter(PacketWriterFunc) and both constructors over a packet writer that also has a raw Write([]byte) method of its own, with a slice of every length 0..3*188+1 (thorough 0..6*188+1) of pairwise distinct packets x failing packet write at no index and at every index (0..k), and for multiples of 188 a second Write of the same slice through the same adapter with the failure at every index of the second write: multiple of 188 => one delivery per packet, in order, each byte-equal to its 188 bytes (copied at call time), n == len and nil error if none fails, else the writer's error and no delivery after the failing one (n then not asserted); other lengths => ErrInvalidPacketLength and zero deliveries; input slice never modified; non-trivial = length > 0",
 			Gen: func(r *engine.Run, emit func(c18WriteCase)) {
 				maxPk := 3
 				if r.Thorough() {
@@ -546,11 +552,11 @@ func init() {
 						for _, ch := range []int{1, 100, 187, 188, 189, 376, 4000, 4096, 100000} {
 							for _, b := range []int{0, 16, 4096, 4100} {
 								for _, e := range []bool{false, true} {
-									emit(c18LongCase{Adapter: (p + t + ch) % 4, Packets: p, Tail: t, Chunk: ch, Bufio: b, EOFData: e})
+									emit(c18LongCase{Adapter: (p + t + ch) % len(c18Adapters), Packets: p, Tail: t, Chunk: ch, Bufio: b, EOFData: e})
 									if b == 0 && ch <= 189 && p <= 100 {
 										// hesitant readers, unbuffered: with one-byte pieces this is 188 / 376 empty reads per packet
 										for _, h := range []int{1, 2} {
-											emit(c18LongCase{Adapter: (p + t + ch + h) % 4, Packets: p, Tail: t, Chunk: ch, EOFData: e, Hesitate: h})
+											emit(c18LongCase{Adapter: (p + t + ch + h) % len(c18Adapters), Packets: p, Tail: t, Chunk: ch, EOFData: e, Hesitate: h})
 										}
 									}
 								}
@@ -564,9 +570,9 @@ func init() {
 	}
 	scen = append(scen, &engine.Enum[c18NestCase]{
 		Name: "nested-adapters",
-		Rule: "outer ReadFrom (each of the 4 adapters) over 1..3 packets + tail {0,1,100} in pieces of {1,93,94,95,187,188,189,400} bytes; at EVERY Read call position the source itself first completes a Write of two packets and a ReadFrom of a 2.5-packet stream through a separate adapter (each of the 4 kinds) with its own packet writer: outer result judged as in readfrom-uniform-chunks, nested Write delivers its 2 packets (n = 376, nil), nested ReadFrom delivers its 2 packets (n = 376, invalid-length error); finds transfer state shared between adapter values",
+		Rule: "outer ReadFrom (each of the 6 adapters) over 1..3 packets + tail {0,1,100} in pieces of {1,93,94,95,187,188,189,400} bytes; at EVERY Read call position the source itself first completes a Write of two packets and a ReadFrom of a 2.5-packet stream through a separate adapter (each of the 4 kinds) with its own packet writer: outer result judged as in readfrom-uniform-chunks, nested Write delivers its 2 packets (n = 376, nil), nested ReadFrom delivers its 2 packets (n = 376, invalid-length error); finds transfer state shared between adapter values",
 		Gen: func(r *engine.Run, emit func(c18NestCase)) {
-			for a := 0; a < 4; a++ {
+			for a := 0; a < len(c18Adapters); a++ {
 				for in := 0; in < 4; in++ {
 					for p := 1; p <= 3; p++ {
 						for _, t := range []int{0, 1, 100} {
@@ -589,14 +595,14 @@ func init() {
 			extra := p == 4 || t == 94
 			scen = append(scen, &c18Tree{Tree: engine.Tree{
 				Name: fmt.Sprintf("readfrom-tree-%dp+%d", p, t),
-				Rule: fmt.Sprintf("ReadFrom through %s over a stream of %d packets + %d bytes with the scripted environment: first choice = failing packet write (none, index 0..%d), then at every Read optionally an empty answer (0,nil) first (at most two in a row), the amount (all that fits, 1, half, up to the next 188-boundary of the stream, +1, -1), a fault (none, error without data, error together with the data; the error sticky or transient, the injected error or io.ErrUnexpectedEOF; a failing packet write reporting 0, 188 or 100 bytes) and, with the last byte, EOF separate / attached; deviations from the all-default run <= 6 (thorough 8); same oracle as readfrom-uniform-chunks; non-trivial = execution with at least one deviation", c18Adapters[(p+t)%4], p, t, p-1),
+				Rule: fmt.Sprintf("ReadFrom through %s over a stream of %d packets + %d bytes with the scripted environment: first choice = failing packet write (none, index 0..%d), then at every Read optionally an empty answer (0,nil) first (at most two in a row), the amount (all that fits, 1, half, up to the next 188-boundary of the stream, +1, -1), a fault (none, error without data, error together with the data; the error sticky or transient, the injected error or io.ErrUnexpectedEOF; a failing packet write reporting 0, 188 or 100 bytes) and, with the last byte, EOF separate / attached; deviations from the all-default run <= 6 (thorough 8); same oracle as readfrom-uniform-chunks; non-trivial = execution with at least one deviation", c18Adapters[(p+2*t)%len(c18Adapters)], p, t, p-1),
 				Bound: func(r *engine.Run) int {
 					if r.Thorough() {
 						return 8
 					}
 					return 6
 				},
-				Body: c18TreeBody((p+t)%4, p, t),
+				Body: c18TreeBody((p+2*t)%len(c18Adapters), p, t),
 			}, thoroughOnly: extra})
 		}
 	}
